@@ -124,7 +124,9 @@ def discover(env, cfg):
         return out
     kemb, K = res.calls[1].rets[0], res.calls[1].rets[1]
     cid = res.calls[2].rets[0]
-    if K not in (3, 4, 8):
+    if K not in (2, 3, 4, 8) or (K == 2 and kemb == 12):
+        # K = 2 with embedding degree 12 is engine/pcctx.py (several sets per build); K = 2 with k = 8 (GMT8_P544,
+        # quartic twist over Fp2) is served here like the other one-set-per-build configurations
         notes.append("G2 degree %d is not handled here (2 = engine/pcctx.py)" % K)
         return out
     c = _base_curve(env, cfg, res.calls[5], res.calls[6], cid, sn1, sh1, sg1, res.dumps)
